@@ -36,6 +36,12 @@ var c13Keys = []string{"sp2048", "sp1024", "sp3072", "sp4096", "spec256", "spec3
 
 var c13Messages = []string{"authn-redirect", "authn-post", "logoutreq-redirect", "logoutreq-post", "logoutresp-redirect", "logoutresp-post", "artifact-resolve"}
 
+// c13Serialised are the other exported ways the same signed messages leave the library: the serialisers on the message types themselves
+// (an application that delivers a message over its own channel uses these): Bytes / Deflate where the type has them, else Element()
+// written out. (encoding/xml's Marshal of the Go structs is not one of them: the Signature field is not part of what it writes, on the
+// pinned tree too, so nothing signed ever leaves that way.)
+var c13Serialised = []string{"logoutreq-bytes", "logoutreq-deflate", "logoutreq-element", "logoutresp-element", "authn-post-element", "artifact-resolve-element"}
+
 func hashFor(method string) (crypto.Hash, func([]byte) []byte) {
 	switch {
 	case strings.HasSuffix(method, "sha1"):
@@ -97,10 +103,13 @@ func runC13(c *core.Ctx) {
 	relays := []string{"", "rs", "a b&c=d#e+f/%?;é"}
 	for _, kn := range c13Keys {
 		for _, method := range c13Methods {
-			for _, msg := range c13Messages {
+			for _, msg := range append(append([]string{}, c13Messages...), c13Serialised...) {
 				for ri, relay := range relays {
 					for _, epq := range []string{"", "?x=1&y=2"} {
 						for opt := 0; opt < 4; opt++ {
+							if ri > 0 && (strings.HasSuffix(msg, "-element") || strings.HasSuffix(msg, "-bytes") || strings.HasSuffix(msg, "-deflate")) {
+								continue
+							}
 							heavy := kn == "sp3072" || kn == "sp4096" || kn == "spec384" || kn == "spec521"
 							if !c.Thorough() && heavy && (ri == 1 || opt == 1) {
 								continue
@@ -583,10 +592,45 @@ func c13EmitHold(t *core.T, sp *saml.ServiceProvider, kn, method, msg, relay, ke
 
 	var u *url.URL
 	var page []byte
+	var rawxml []byte
 	var el *etree.Element
 	var err error
 	_, p := guard(func() error {
 		switch msg {
+		case "logoutreq-bytes", "logoutreq-deflate", "logoutreq-element":
+			var lr *saml.LogoutRequest
+			lr, err = sp.MakeLogoutRequest(sp.GetSLOBindingLocation(saml.HTTPRedirectBinding), c13NameID)
+			if err == nil {
+				switch msg {
+				case "logoutreq-bytes":
+					rawxml, err = lr.Bytes()
+				case "logoutreq-deflate":
+					var z []byte
+					if z, err = lr.Deflate(); err == nil {
+						rawxml, err = inflate(z)
+					}
+				default:
+					rawxml = samlgen.Doc(lr.Element())
+				}
+			}
+		case "logoutresp-element":
+			var lr *saml.LogoutResponse
+			lr, err = sp.MakeLogoutResponse(sp.GetSLOBindingLocation(saml.HTTPRedirectBinding), "id-given")
+			if err == nil {
+				rawxml = samlgen.Doc(lr.Element())
+			}
+		case "authn-post-element":
+			var ar *saml.AuthnRequest
+			ar, err = sp.MakeAuthenticationRequest(sp.GetSSOBindingLocation(saml.HTTPPostBinding), saml.HTTPPostBinding, saml.HTTPPostBinding)
+			if err == nil {
+				rawxml = samlgen.Doc(ar.Element())
+			}
+		case "artifact-resolve-element":
+			var ar *saml.ArtifactResolve
+			ar, err = sp.MakeArtifactResolveRequest("artifact-1")
+			if err == nil {
+				rawxml = samlgen.Doc(ar.Element())
+			}
 		case "authn-redirect":
 			u, err = sp.MakeRedirectAuthenticationRequest(relay)
 		case "authn-post":
@@ -744,6 +788,8 @@ func c13EmitHold(t *core.T, sp *saml.ServiceProvider, kn, method, msg, relay, ke
 					el = samlgen.Parse(raw)
 				}
 			}
+		} else if rawxml != nil {
+			el = samlgen.Parse(rawxml)
 		} else if el != nil {
 			// ArtifactResolve travels inside a SOAP body: take the wire form
 			wire := samlgen.Parse(samlgen.Doc(el))
